@@ -40,13 +40,64 @@ def make_scratch(repo='/repo'):
     return d
 
 
+def _find_scope(tree, dotted):
+    node = tree
+    for part in dotted.split('.'):
+        found = None
+        for n in ast.walk(node):
+            if n is not node and isinstance(
+                    n, (ast.FunctionDef, ast.ClassDef)) and n.name == part:
+                found = n
+                break
+        if found is None:
+            return None
+        node = found
+    return node
+
+
+def ast_edit(src, scope, stmt, new):
+    """Replace the statement inside ``scope`` whose ``ast.unparse`` equals
+    ``stmt`` (or starts with it when ``stmt`` ends in '...') by ``new``
+    (re-indented); returns None if not found exactly once."""
+    tree = ast.parse(src)
+    sc = _find_scope(tree, scope) if scope else tree
+    if sc is None:
+        return None
+    prefix = stmt.endswith('...')
+    key = stmt[:-3] if prefix else stmt
+    hits = []
+    for n in ast.walk(sc):
+        if isinstance(n, ast.stmt):
+            u = ast.unparse(n)
+            if (u.startswith(key) if prefix else u == key):
+                hits.append(n)
+    # keep outermost matches only
+    hits = [h for h in hits if not any(
+        o is not h and o.lineno <= h.lineno and h.end_lineno <= o.end_lineno
+        and (u_ := 1) for o in hits if o is not h
+        and any(x is h for x in ast.walk(o)))]
+    if len(hits) != 1:
+        return None
+    n = hits[0]
+    lines = src.split('\n')
+    indent = lines[n.lineno - 1][:n.col_offset]
+    new_lines = [(indent + l if l.strip() else l)
+                 for l in (new if new.strip() else 'pass').split('\n')]
+    return '\n'.join(lines[:n.lineno - 1] + new_lines + lines[n.end_lineno:])
+
+
 def apply_mutant(scratch, m):
     p = os.path.join(scratch, m['file'])
     with open(p) as f:
         s = f.read()
-    if s.count(m['old']) != m.get('count', 1):
-        return False
-    s2 = s.replace(m['old'], m['new'])
+    if 'stmt' in m:
+        s2 = ast_edit(s, m.get('scope'), m['stmt'], m['new'])
+        if s2 is None:
+            return False
+    else:
+        if s.count(m['old']) != m.get('count', 1):
+            return False
+        s2 = s.replace(m['old'], m['new'])
     try:
         ast.parse(s2)
     except SyntaxError as e:
